@@ -189,6 +189,21 @@ def marker_laws(chk):
         kind = ("MarkerUnion", "MultiMarker")[i % 2]
         triples.append(((kind, x, y, z), (kind, x, y), rnd.choice(plain)))
         triples.append(((kind, x, y), (kind, x, y, z), rnd.choice(plain)))
+    # exhaustive family: everything that can be said about ONE string variable with two values — atoms, the == group and the != group —
+    # as all ordered triples (this is where groups are formed, shrunk to one value and exhausted; not left to the sample), plus a
+    # version-valued variable with two adjacent bounds
+    import itertools
+    fam = []
+    for var in ("os_name",):
+        ops = [("ME", var, "==", "a", False), ("ME", var, "==", "b", False), ("ME", var, "!=", "a", False), ("ME", var, "!=", "b", False),
+               ("EqualityMarkerUnion", var, ("a", "b")), ("InequalityMultiMarker", var, ("a", "b")), ("ME", "sys_platform", "==", "a", False)]
+        if chk.tier != "quick":
+            ops += [("ME", var, "==", "ab", False), ("ME", var, "in", "ab", False), ("EqualityMarkerUnion", var, ("b", "ab")), ("InequalityMultiMarker", var, ("a", "ab"))]
+        fam += list(itertools.product(ops, repeat=3))
+    pv = [("ME", "python_version", ">=", "3.7", False), ("ME", "python_version", "<", "3.8", False), ("ME", "python_version", "==", "3.7", False),
+          ("ME", "python_version", "!=", "3.7", False), ("ME", "python_full_version", ">=", "3.7.2", False), ("ME", "os_name", "==", "a", False)]
+    fam += list(itertools.product(pv, repeat=3))
+    triples = fam + triples
     src = str(chk.src)
     per = max(1, (len(triples) + chk.jobs * 3 - 1) // (chk.jobs * 3))
     total = nf = 0
